@@ -397,6 +397,13 @@ func c07Scripted() []dkgrig.Config {
 				return s, i == b
 			})
 		}
+		// dealing correctly, then an apology nobody asked for, with a wrong value, naming v as accuser
+		all(3, 2, func(i int) (dkgrig.Strategy, bool) {
+			s := dkgrig.HonestStrategy(3)
+			s.Unsolicited = make([]bool, 3)
+			s.Unsolicited[v] = true
+			return s, i == b
+		})
 		// a wrong value for v only with the commitment first, apologising correctly / wrongly
 		for _, apo := range []dkgrig.ApologyMode{dkgrig.ApologyCorrect, dkgrig.ApologyWrong} {
 			apo := apo
@@ -506,18 +513,40 @@ func opsOf(tr *dkgrig.Trace) (ops string, ks []int) {
 }
 
 func (r *runner) c08() error {
-	r.res.Rule = "complete key generations (n=3 t=2, and n=4 t=3 in the thorough tier) in which one observed keyper is killed at a database round trip (before the request is sent / after a commit was applied but before its reply is read), at the deletion of an outbox row after an accepted broadcast, or while waiting in a broadcast, and restarted over the same database; quick: evenly spaced round trips in both modes plus every outbox deletion and broadcast; thorough: every round trip in both modes and sampled pairs. Each run is compared with the crash-free run (outcome, keys), its trace is checked (blocks applied 0,1,2,…, one commitment per eon, outbox order) and its database-level operations are replayed on the crash model. Distinct by model line."
+	r.res.Rule = "complete key generations (n=3 t=2, and n=4 t=3 in the thorough tier; everybody honest, with a Byzantine peer that makes the observed keyper accuse and apologise, and with a peer that checks in after the eon has started) in which one observed keyper is killed at a database round trip (before the request is sent / after a commit was applied but before its reply is read), at the deletion of an outbox row after an accepted broadcast, or while waiting in a broadcast, and restarted over the same database; quick: evenly spaced round trips in both modes plus every outbox deletion and broadcast; thorough: every round trip in both modes and sampled pairs. Each run is compared with the crash-free run (outcome, keys), its trace is checked (blocks applied 0,1,2,…, one commitment per eon, outbox order) and its database-level operations are replayed on the crash model. Distinct by model line."
 	rnd := hx.NewRand(r.cfg.Seed ^ 0xC08)
-	type setup struct{ n, t, observed int }
-	setups := []setup{{3, 2, 1}}
+	type setup struct {
+		n, t, observed int
+		// kind: "" everybody honest and up from the start; "byz": another keyper deals a wrong value to the observed
+		// one and accuses it falsely (so the observed keyper has accusations and apologies to send); "late": another
+		// keyper checks in only after the eon has started
+		kind string
+	}
+	setups := []setup{{3, 2, 1, ""}, {3, 2, 1, "byz"}, {3, 2, 1, "late"}}
 	if r.cfg.Tier == "thorough" {
-		setups = append(setups, setup{3, 2, 0}, setup{4, 3, 2})
+		setups = append(setups, setup{3, 2, 0, ""}, setup{4, 3, 2, ""}, setup{4, 3, 2, "byz"}, setup{3, 2, 0, "late"})
+	}
+	if r.search {
+		setups = setups[:3]
 	}
 	for _, su := range setups {
 		if r.stop {
 			break
 		}
 		base := dkgrig.Config{N: su.n, T: su.t, Seed: rnd.U64(), Observed: su.observed}
+		other := (su.observed + 1) % su.n
+		switch su.kind {
+		case "byz":
+			s := dkgrig.HonestStrategy(su.n)
+			s.Eval[su.observed] = dkgrig.EvalWrong
+			s.Accuse[su.observed] = true
+			base.Byzantine = map[int]dkgrig.Strategy{other: s}
+		case "late":
+			// long phases: a restart costs the keyper a few blocks, which must not push a message out of its phase
+			base.HoldCheckIn = map[int]int64{other: 9}
+			base.PhaseLength = 16
+		}
+		r.res.Count("setup:" + map[string]string{"": "all-honest", "byz": "byzantine-peer", "late": "late-check-in"}[su.kind])
 		total, ref, err := dkgrig.CountRoundTrips(base)
 		if err != nil {
 			return fmt.Errorf("crash-free run: %w", err)
@@ -583,6 +612,10 @@ func (r *runner) c08() error {
 			}
 			if bad := dkgrig.SameMessages(ref, out); len(bad) > 0 {
 				r.violate("spec", "messages-differ", fmt.Sprintf("crash %s of keyper %d: the key generation messages executed on the chain differ from the crash-free run: %s", what, su.observed, strings.Join(bad, "; ")), extra)
+				break
+			}
+			if bad := dkgrig.SameQueued(ref, out, su.observed); len(bad) > 0 {
+				r.violate("spec", "queued-differs", fmt.Sprintf("crash %s of keyper %d: what it queued for shuttermint differs from the crash-free run: %s", what, su.observed, strings.Join(bad, "; ")), extra)
 				break
 			}
 			if bad := dkgrig.CheckTrace(out, su.observed); len(bad) > 0 {
